@@ -90,7 +90,7 @@ fn ring_area_sign(ring: &[P]) -> i32 {
     s.signum()
 }
 
-fn triple_strategy() -> impl Strategy<Value = [P; 3]> {
+pub(crate) fn triple_strategy() -> impl Strategy<Value = [P; 3]> {
     prop_oneof![
         // exactly collinear integers up to 2^52, perturbed by -2..2 ulps
         5 => (0u32..52, (0i64..1000, 0i64..1000), (-8i64..9, -8i64..9), (0i64..4096, 0i64..4096), [-2i32..3, -2i32..3, -2i32..3, -2i32..3, -2i32..3, -2i32..3])
@@ -115,6 +115,18 @@ fn triple_strategy() -> impl Strategy<Value = [P; 3]> {
             [m(a), m(b), m(c)]
         }),
         1 => [(-1e3f64..1e3, -1e3f64..1e3), (-1e3f64..1e3, -1e3f64..1e3), (-1e3f64..1e3, -1e3f64..1e3)],
+        // exactly collinear at very different magnitudes: multiples m * 2^e of one small integer direction (every product
+        // is exact), the third one nudged by -1..1 ulps
+        2 => ((-12i64..13, -12i64..13), [(-255i64..256, -60i32..40), (-255i64..256, -60i32..40), (-255i64..256, -60i32..40)], -1i32..2, -1i32..2).prop_map(|(d, m, kx, ky)| {
+            let p = |(mi, e): (i64, i32)| ((d.0 * mi) as f64 * 2f64.powi(e), (d.1 * mi) as f64 * 2f64.powi(e));
+            let c = p(m[2]);
+            [p(m[0]), p(m[1]), (nudge(c.0, kx), nudge(c.1, ky))]
+        }),
+        // thin but non-degenerate: consecutive lattice points of a long diagonal, doubled area 1 or 2
+        1 => (20u32..51, -2i64..3, -2i64..3).prop_map(|(e, u, v)| {
+            let b = (1i64 << e) as f64;
+            [(0.0, 0.0), (b + 1.0, b), (b + 2.0 + u as f64, b + 1.0 + v as f64)]
+        }),
     ]
 }
 
@@ -239,7 +251,7 @@ impl Property for C03 {
             .into()
     }
     fn must_hit() -> Vec<&'static str> {
-        vec!["naive-sign-wrong", "exact-collinear", "exact-on-boundary", "int-kernel", "sub:Triple", "sub:Segs", "sub:Rings", "sub:Tri", "sub:Collinear", "collinear:all-products-underflow", "collinear:subnormal-position"]
+        vec!["naive-sign-wrong", "exact-collinear", "exact-on-boundary", "int-kernel", "sub:Triple", "sub:Segs", "sub:Rings", "sub:Tri", "f32-kernel", "i128-kernel", "i16-kernel", "sub:Collinear", "collinear:all-products-underflow", "collinear:subnormal-position"]
     }
     fn check(c: &Case, obs: &mut Obs) {
         let co = |p: P| Coord { x: p.0, y: p.1 };
@@ -277,6 +289,38 @@ impl Property for C03 {
                 let g3 = l.contains(&co(p));
                 let want_c = on && p != a && p != b || (a == b && p == a);
                 obs.expect(g3 == want_c, "Line::contains(Coord)|wrong", || format!("got {g3} exact {want_c}; {:?}", t));
+                // the f32 instantiation of the robust kernel, on the f32 roundings of the same points (f32 -> f64 is exact,
+                // so the oracle is the exact sign for the widened values)
+                let t32: Vec<(f32, f32)> = t.iter().map(|p| (p.0 as f32, p.1 as f32)).collect();
+                if t32.iter().all(|p| p.0.is_finite() && p.1.is_finite() && (p.0 == 0.0 || p.0.abs() > 1e-30) && (p.1 == 0.0 || p.1.abs() > 1e-30)) {
+                    let w = |p: (f32, f32)| (p.0 as f64, p.1 as f64);
+                    let want32 = orient_f64(w(t32[0]), w(t32[1]), w(t32[2]));
+                    let c32 = |p: (f32, f32)| Coord { x: p.0, y: p.1 };
+                    let g32 = match <f32 as GeoNum>::Ker::orient2d(c32(t32[0]), c32(t32[1]), c32(t32[2])) {
+                        Orientation::CounterClockwise => 1,
+                        Orientation::Clockwise => -1,
+                        Orientation::Collinear => 0,
+                    };
+                    obs.label("f32-kernel");
+                    obs.expect(g32 == want32, "orient2d:f32|wrong-sign", || format!("got {g32} exact {want32}; {:?}", t32));
+                    let on32 = want32 == 0 && { let (a, b, p) = (t32[0], t32[1], t32[2]); p.0 >= a.0.min(b.0) && p.0 <= a.0.max(b.0) && p.1 >= a.1.min(b.1) && p.1 <= a.1.max(b.1) };
+                    let gl = Line::new(c32(t32[0]), c32(t32[1])).intersects(&c32(t32[2]));
+                    obs.expect(gl == on32, "Line<f32>::intersects(Coord)|wrong", || format!("got {gl} exact {on32}; {:?}", t32));
+                }
+                // i128: every integer-valued triple fits (|v| < 2^53, products < 2^108)
+                if t.iter().all(|p| p.0.fract() == 0.0 && p.1.fract() == 0.0 && p.0.abs() < 9.1e15 && p.1.abs() < 9.1e15) {
+                    let v: Vec<i128> = t.iter().flat_map(|p| [p.0 as i128, p.1 as i128]).collect();
+                    let gi = match <i128 as GeoNum>::Ker::orient2d(Coord { x: v[0], y: v[1] }, Coord { x: v[2], y: v[3] }, Coord { x: v[4], y: v[5] }) {
+                        Orientation::CounterClockwise => 1,
+                        Orientation::Clockwise => -1,
+                        Orientation::Collinear => 0,
+                    };
+                    obs.label("i128-kernel");
+                    obs.expect(gi == want, "orient2d:i128|wrong-sign", || format!("got {gi} exact {want}; {:?}", v));
+                    let li = Line::new(Coord { x: v[0], y: v[1] }, Coord { x: v[2], y: v[3] });
+                    let gi2 = li.intersects(&Coord { x: v[4], y: v[5] });
+                    obs.expect(gi2 == on, "Line<i128>::intersects(Coord)|wrong", || format!("got {gi2} exact {on}; {:?}", v));
+                }
                 // integer kernels when the values are integers with products that fit
                 let as_int = |v: f64, lim: f64| if v.fract() == 0.0 && v.abs() < lim { Some(v as i64) } else { None };
                 let ints: Vec<Option<i64>> = t.iter().flat_map(|p| [as_int(p.0, (1u64 << 30) as f64), as_int(p.1, (1u64 << 30) as f64)]).collect();
@@ -300,6 +344,31 @@ impl Property for C03 {
                         let li = Line::new(Coord { x: w[0], y: w[1] }, Coord { x: w[2], y: w[3] });
                         let gi2 = li.intersects(&Coord { x: w[4], y: w[5] });
                         obs.expect(gi2 == on, "Line<i32>::intersects(Coord)|wrong", || format!("got {gi2} exact {on}; {:?}", w));
+                        // isize (same width as i64 here) and, for |v| < 63, i16
+                        let z: Vec<isize> = v.iter().map(|x| *x as isize).collect();
+                        let gz = match <isize as GeoNum>::Ker::orient2d(Coord { x: z[0], y: z[1] }, Coord { x: z[2], y: z[3] }, Coord { x: z[4], y: z[5] }) {
+                            Orientation::CounterClockwise => 1,
+                            Orientation::Clockwise => -1,
+                            Orientation::Collinear => 0,
+                        };
+                        obs.expect(gz == want, "orient2d:isize|wrong-sign", || format!("got {gz} exact {want}; {:?}", z));
+                        if v.iter().all(|x| x.abs() < 63) {
+                            let h: Vec<i16> = v.iter().map(|x| *x as i16).collect();
+                            let gh = match <i16 as GeoNum>::Ker::orient2d(Coord { x: h[0], y: h[1] }, Coord { x: h[2], y: h[3] }, Coord { x: h[4], y: h[5] }) {
+                                Orientation::CounterClockwise => 1,
+                                Orientation::Clockwise => -1,
+                                Orientation::Collinear => 0,
+                            };
+                            obs.label("i16-kernel");
+                            obs.expect(gh == want, "orient2d:i16|wrong-sign", || format!("got {gh} exact {want}; {:?}", h));
+                            let lh = Line::new(Coord { x: h[0], y: h[1] }, Coord { x: h[2], y: h[3] });
+                            let l2 = Line::new(Coord { x: h[4], y: h[5] }, Coord { x: h[0], y: h[3] });
+                            // segment-segment on the integer type agrees with the f64 answer for the same (exactly representable) values
+                            let f = |q: Coord<i16>| Coord { x: q.x as f64, y: q.y as f64 };
+                            let want_ll = Line::new(f(lh.start), f(lh.end)).intersects(&Line::new(f(l2.start), f(l2.end)));
+                            let got_ll = lh.intersects(&l2);
+                            obs.expect(got_ll == want_ll, "Line<i16>::intersects(Line)|differs-from-f64", || format!("got {got_ll} f64 {want_ll}; {:?} {:?}", lh, l2));
+                        }
                     }
                 }
             }
